@@ -31,6 +31,11 @@ CHECKS = {
             'MIR dominance / cut-reachability, who-may-write, writer/reader table agreement'),
 }
 
+CHECKS['C12'] = ('§3 C12', 'R12a check-all-then-acquire-all inside one critical section of both lock tables and one acquisition order in '
+                 'every function that takes both, R12b every removal from pending releases each Yes-vote handle with wait-graph cleanup and '
+                 'lock table / index are updated together, R12c the deadlock victim is drawn from the cycle argument (provenance of the '
+                 'return value through selectors and closures), R12d the lock-acquisition graph of the coordinator is acyclic',
+                 'guard live ranges (must/may), lock-order graph over the call graph with SCCs, value provenance')
 CHECKS['C13'] = ('§3 C13', 'R02b tail repair of the transaction log on reopen, R02e replay stops at the first bad record, R03c/R03d/R03e '
                  'decision and completion logging discipline of the coordinator, R13a phase table agreement between what the coordinator '
                  'logs and what recovery restores (with lock handles), R13b recovery consumes every list its classification fills',
